@@ -42,11 +42,11 @@ struct Line {
     int nlisted; int listed[64];
     char raw[200];
 };
-static const int MAXL = 60000;
+static const int MAXL = 400000;     // (long runs: tens of thousands of tests in one execution)
 static Line* lines;          // lines of the current execution
 static int nlines;
 struct Blk { void* p; unsigned num; bool isMalloc; bool live; size_t size; };
-static const int MAXB = 100000;
+static const int MAXB = 400000;
 static Blk* blks;            // indexed by script id
 static MemoryLeakDetector* det;
 static MemoryLeakWarningPlugin* plugin;
@@ -133,6 +133,9 @@ static void tracked_alloc(int id, int bk, bool isMalloc, const char* file)
 class RecOutput : public StringBufferTestOutput
 {
 public:
+    // progress dots and the summary are no part of the projection; a run of tens of thousands of tests must not pay for a text
+    // that is copied every time it grows
+    void printBuffer(const char*) CPPUTEST_OVERRIDE {}
     void printFailure(const TestFailure& f) CPPUTEST_OVERRIDE
     {
         bool leak = false;
@@ -154,7 +157,8 @@ public:
 
 static int id_of_num(unsigned num)
 {
-    for (int i = 0; i <= maxid && i < MAXB; i++) if (blks[i].p && blks[i].num == num) return i;
+    // (allocation numbers are unique; the youngest blocks first: in a long run a report names recent blocks as a rule)
+    for (int i = maxid < MAXB ? maxid : MAXB - 1; i >= 0; i--) if (blks[i].p && blks[i].num == num) return i;
     return -1;
 }
 
